@@ -93,7 +93,7 @@ bool verif_winit(zckCtx *zck, zckComp *comp);
 
 /* frame of zck_write's loops = union of the caller-view frames of comp_write and zck_end_chunk (started context) */
 #define WR_LOOP_FRAME zck->comp.dc_data, zck->comp.dc_data_size, zck->comp.dc_data_loc, zck->work_index_item, WR_WORKHASHES, \
-    zck->index.first, zck->index.last, zck->index.count, zck->index.length, zck->error_state, zck->buzhash.window, g_same, g_bz_last, g_next
+    zck->index.first, zck->index.last, zck->index.count, zck->index.length, zck->error_state, zck->buzhash.window, g_same, g_bz_have, g_bz_last_obj, g_bz_last_off, g_next_off
 /* facts about the locations in that frame which the callees need again (their preconditions) */
 #define WR_LOOP_INV(z) (WBUF_WF(&(z)->comp) && WI_WF(z) && WH1_WF(z, &(z)->work_index_hash) && WH1_WF(z, &(z)->work_index_hash_uncomp) && IDXW_WF(z) && BZ_WF(&(z)->buzhash))
 
@@ -121,9 +121,9 @@ V_ENSURES(__CPROVER_return_value < 0 || zck->comp.type != ZCK_COMP_ZSTD || !(g_k
 ssize_t verif_compress(zckCtx *zck, zckComp *comp, const char *src, const size_t src_size, char **dst, size_t *dst_size, bool use_dict)
 CONTRACT_COMPRESS
 /* ghost bookkeeping of the stand-in only: it records what it was handed */
-V_REQUIRES(!g_track || src == g_next) /*@C01.compress.source_bytes_arrive_in_order_without_gap_or_repeat*/
-V_ASSIGNS(g_next)
-V_ENSURES(g_next == (g_track ? src + src_size : V_OLD(g_next)))
+V_REQUIRES(!g_track || G_NEXT_IS(src)) /*@C01.compress.source_bytes_arrive_in_order_without_gap_or_repeat*/
+V_ASSIGNS(g_next_off)
+V_ENSURES(g_next_off == V_OLD(g_next_off) + (g_track ? src_size : (size_t)0))
 ;
 
 /* end_cchunk: emits the stored form of the chunk under construction and empties the chunk buffer */
@@ -172,7 +172,7 @@ V_REQUIRES(__CPROVER_rw_ok(b, sizeof(*b)) && BZ_WF(b))
 V_REQUIRES(__CPROVER_r_ok(s, 1) && __CPROVER_w_ok(output, sizeof(*output)))
 V_REQUIRES(window >= 1 && window <= 4096)
 V_ASSIGNS(b->h, b->window, b->window_size, b->window_loc, b->window_fill, *output)
-V_GHOST_ASSIGNS(g_same, g_bz_last)
+V_GHOST_ASSIGNS(g_same, g_bz_have, g_bz_last_obj, g_bz_last_off)
 V_ASSIGNS_NODES(b->window != NULL: __CPROVER_object_whole(b->window))
 V_FREES_CALLEE(b->window)
 V_ENSURES(!__CPROVER_return_value || (b->window != NULL && b->window_size == (int)window && b->window_fill >= 1 && b->window_fill <= b->window_size && b->window_loc >= 0 && b->window_loc < b->window_size)) /*@C16,C03.buzhash_update.window_state_well_formed*/
@@ -180,17 +180,17 @@ V_ENSURES(!__CPROVER_return_value || !(V_OLD(b->window) != NULL && V_OLD(b->wind
 V_ENSURES(__CPROVER_return_value || b->window == NULL) /*@C03.buzhash_update.failure_leaves_no_window*/
 V_ENSURES(!__CPROVER_return_value || (V_OLD(b->window) != NULL && V_OLD(b->window_size) == (int)window) || (b->window_fill == 1 && b->window_loc == 0 && __CPROVER_is_fresh(b->window, window) && b->window[0] == *s)) /*@C16.buzhash_update.restart_after_reset_forgets_old_window_position*/
 V_ENSURES(!__CPROVER_return_value || b->window_fill == b->window_size || *output == 1) /*@C16.buzhash_update.no_boundary_before_window_is_full*/
-V_GHOST_ENSURES(!__CPROVER_return_value || (g_bz_last == s && g_same == ((V_OLD(g_bz_last) == s && V_OLD(b->window) != NULL && V_OLD(b->window_size) == (int)window) ? V_OLD(g_same) + 1 : 1u)))
+V_GHOST_ENSURES(!__CPROVER_return_value || (G_BZ_LAST_IS(s) && g_same == ((G_BZ_LAST_WAS(s) && V_OLD(b->window) != NULL && V_OLD(b->window_size) == (int)window) ? V_OLD(g_same) + 1 : 1u)))
 V_GHOST_ENSURES(!__CPROVER_return_value || window != SPEC_BZ_WIDTH || g_same < SPEC_BZ_WIDTH || (*output & SPEC_BZ_MASK) != 0) /*@C01.buzhash_update.window_full_of_one_byte_never_matches*/
 ;
 
 void buzhash_reset(buzHash *b)
 V_REQUIRES(__CPROVER_rw_ok(b, sizeof(*b)) && BZ_WF(b))
 V_ASSIGNS(b->window)
-V_GHOST_ASSIGNS(g_same, g_bz_last)
+V_GHOST_ASSIGNS(g_same, g_bz_have, g_bz_last_obj, g_bz_last_off)
 V_FREES_CALLEE(b->window)
 V_ENSURES(b->window == NULL) /*@C16.buzhash_reset.state_discarded_at_chunk_end*/
-V_GHOST_ENSURES(g_same == 0 && g_bz_last == NULL)
+V_GHOST_ENSURES(g_same == 0 && g_bz_have == 0)
 ;
 
 /* ---- index under construction (src/lib/index/index_create.c) ------------------------------------ */
@@ -237,14 +237,14 @@ static ssize_t comp_write(zckCtx *zck, const char *src, const size_t src_size)
 V_REQUIRES(__CPROVER_rw_ok(zck, sizeof(*zck)))
 V_REQ_WR_COMMON(zck)
 V_REQUIRES(src_size == 0 || (src != NULL && __CPROVER_r_ok(src, src_size)))
-V_REQUIRES(g_track == 1 && src == g_next) /*@C01.comp_write.source_bytes_arrive_in_order_without_gap_or_repeat*/
-V_ASSIGNS(zck->comp.dc_data, zck->comp.dc_data_size, zck->work_index_item, WR_WORKHASHES, zck->error_state, g_next)
+V_REQUIRES(g_track == 1 && G_NEXT_IS(src)) /*@C01.comp_write.source_bytes_arrive_in_order_without_gap_or_repeat*/
+V_ASSIGNS(zck->comp.dc_data, zck->comp.dc_data_size, zck->work_index_item, WR_WORKHASHES, zck->error_state, g_next_off)
 V_ASSIGNS_MODEL(WR_GHOST_IO, WR_GHOST_HU)
 V_ASSIGNS_NODES(zck->work_index_item != NULL: __CPROVER_object_whole(zck->work_index_item))
 V_FREES_CALLEE(zck->comp.dc_data, zck->work_index_hash.ctx, zck->work_index_hash_uncomp.ctx)
 V_ENSURES(__CPROVER_return_value == -1 || (__CPROVER_return_value >= 0 && (size_t)__CPROVER_return_value == src_size)) /*@C01,C12.comp_write.all_or_error*/
 V_ENSURES(__CPROVER_return_value < 0 || (V_OLD(zck->error_state) == 0 && zck->mode == ZCK_MODE_WRITE)) /*@C12.comp_write.no_success_on_a_context_in_error*/
-V_ENSURES(__CPROVER_return_value < 0 || g_next == V_OLD(g_next) + src_size) /*@C01.comp_write.hands_exactly_its_bytes_to_the_codec*/
+V_ENSURES(__CPROVER_return_value < 0 || g_next_off == V_OLD(g_next_off) + src_size) /*@C01.comp_write.hands_exactly_its_bytes_to_the_codec*/
 V_ENSURES(__CPROVER_return_value < 0 || zck->comp.dc_data_size == V_OLD(zck->comp.dc_data_size) + src_size) /*@C01,C16.comp_write.chunk_length_grows_by_exactly_src_size*/
 V_ENSURES(__CPROVER_return_value < 0 || (WH1_WF(zck, &zck->work_index_hash) && WH1_WF(zck, &zck->work_index_hash_uncomp))) /*@C03.comp_write.keeps_work_hashes_typed*/
 V_ENSURES(__CPROVER_return_value < 0 || (zck->comp.type == ZCK_COMP_ZSTD && src_size != 0) || zck->comp.dc_data == V_OLD(zck->comp.dc_data)) /*@C03.comp_write.pass_through_keeps_no_buffer*/
@@ -293,7 +293,7 @@ V_ENSURES(!__CPROVER_return_value || zck->index.count == V_OLD(zck->index.count)
  * does not carry comp_init's frame. */
 #define EC_FINISHES(z) (V_OLD((z)->comp.started) != 0 && V_OLD((z)->comp.dc_data_size) >= (size_t)V_OLD((z)->chunk_min_size))
 #define EC_FRAME zck->comp.dc_data, zck->comp.dc_data_size, zck->comp.dc_data_loc, zck->work_index_item, WR_WORKHASHES, \
-    zck->index.first, zck->index.last, zck->index.count, zck->index.length, zck->error_state, zck->buzhash.window, g_same, g_bz_last
+    zck->index.first, zck->index.last, zck->index.count, zck->index.length, zck->error_state, zck->buzhash.window, g_same, g_bz_have
 #ifdef VERIF_EC_STARTED
 #define V_EC_VARIANT() V_REQUIRES(zck->comp.started != 0) V_ASSIGNS(EC_FRAME)
 #else
@@ -318,26 +318,26 @@ V_ENSURES(__CPROVER_return_value < 0 || !EC_FINISHES(zck) || (zck->comp.dc_data_
 V_ENSURES(__CPROVER_return_value < 0 || !EC_FINISHES(zck) || zck->index.count == V_OLD(zck->index.count) + 1) /*@C01.zck_end_chunk.finished_chunk_is_indexed*/
 V_ENSURES_NODES(__CPROVER_return_value < 0 || !EC_FINISHES(zck) || (zck->index.last != NULL && zck->index.last->length == WI_OLD_LEN(zck))) /*@C01.zck_end_chunk.finished_chunk_is_indexed_with_its_accumulated_size*/
 V_ENSURES_NODES(__CPROVER_return_value < 0 || !EC_FINISHES(zck) || zck->no_write != 0 || g_wr_bytes[G_IX(zck->temp_fd)] - V_OLD(g_wr_bytes[G_IX(zck->temp_fd)]) == zck->index.last->comp_length - WI_OLD_CLEN(zck)) /*@C01,C12.zck_end_chunk.writes_exactly_the_bytes_it_indexes*/
-V_ENSURES(__CPROVER_return_value < 0 || !EC_FINISHES(zck) || (zck->buzhash.window == NULL && g_bz_last == NULL && g_same == 0)) /*@C16.zck_end_chunk.rolling_hash_state_discarded_at_chunk_end*/
-V_ENSURES(__CPROVER_return_value < 0 || V_OLD(zck->comp.started) == 0 || EC_FINISHES(zck) || (zck->comp.dc_data_size == V_OLD(zck->comp.dc_data_size) && zck->work_index_item == V_OLD(zck->work_index_item) && zck->index.count == V_OLD(zck->index.count) && (size_t)__CPROVER_return_value == zck->comp.dc_data_size && zck->buzhash.window == V_OLD(zck->buzhash.window) && g_bz_last == V_OLD(g_bz_last) && g_same == V_OLD(g_same))) /*@C01.zck_end_chunk.refusal_changes_nothing*/
+V_ENSURES(__CPROVER_return_value < 0 || !EC_FINISHES(zck) || (zck->buzhash.window == NULL && g_bz_have == 0 && g_same == 0)) /*@C16.zck_end_chunk.rolling_hash_state_discarded_at_chunk_end*/
+V_ENSURES(__CPROVER_return_value < 0 || V_OLD(zck->comp.started) == 0 || EC_FINISHES(zck) || (zck->comp.dc_data_size == V_OLD(zck->comp.dc_data_size) && zck->work_index_item == V_OLD(zck->work_index_item) && zck->index.count == V_OLD(zck->index.count) && (size_t)__CPROVER_return_value == zck->comp.dc_data_size && zck->buzhash.window == V_OLD(zck->buzhash.window) && g_bz_have == V_OLD(g_bz_have) && g_same == V_OLD(g_same))) /*@C01.zck_end_chunk.refusal_changes_nothing*/
 V_ENSURES_NODES(__CPROVER_return_value < 0 || V_OLD(zck->comp.started) == 0 || EC_FINISHES(zck) || g_wr_bytes[G_IX(zck->temp_fd)] == V_OLD(g_wr_bytes[G_IX(zck->temp_fd)])) /*@C01.zck_end_chunk.refusal_writes_nothing*/
 ;
 
 /* zck_write (API).  C01: a non-negative result is src_size and means every source byte was handed to
- * the codec exactly once, in order (g_next); termination is the decreases clauses of both loops.
+ * the codec exactly once, in order (ghost offset g_next_off); termination is the decreases clauses of both loops.
  * C16: the chunk under construction stays within the effective maximum (WR_BOUNDS). */
 ssize_t zck_write(zckCtx *zck, const char *src, const size_t src_size)
 V_REQUIRES(__CPROVER_rw_ok(zck, sizeof(*zck)) && zck->error_state >= 0)
 V_REQ_WR_COMMON(zck)
 V_REQUIRES(zck->comp.started != 0 ? WR_BOUNDS(zck) : (OPT_WF(zck) && zck->comp.dc_data_size == 0 && zck->comp.dc_data == NULL && zck->work_index_item == NULL))
 V_REQUIRES(src_size == 0 || (src != NULL && __CPROVER_r_ok(src, src_size)))
-V_REQUIRES(g_next == src && g_track == 1 && g_from_write == 1 && g_bz_last == NULL && g_same == 0)
-V_ASSIGNS(COMP_INIT_FRAME, zck->buzhash, g_same, g_bz_last, g_next)
+V_REQUIRES(g_src_base == src && g_next_off == G_OFF(src) && g_track == 1 && g_from_write == 1 && g_bz_have == 0 && g_same == 0)
+V_ASSIGNS(COMP_INIT_FRAME, zck->buzhash, g_same, g_bz_have, g_bz_last_obj, g_bz_last_off, g_next_off)
 V_ASSIGNS_MODEL(WR_GHOST_IO, WR_GHOST_HU)
 V_ASSIGNS_NODES(zck->buzhash.window != NULL: __CPROVER_object_whole(zck->buzhash.window))
 V_ENSURES(__CPROVER_return_value == -1 || (__CPROVER_return_value >= 0 && (size_t)__CPROVER_return_value == src_size)) /*@C01,C12.zck_write.all_or_error*/
 V_ENSURES(__CPROVER_return_value < 0 || (V_OLD(zck->error_state) == 0 && zck->mode == ZCK_MODE_WRITE)) /*@C12.zck_write.no_success_on_a_context_in_error*/
-V_ENSURES(__CPROVER_return_value < 0 || g_next == src + src_size) /*@C01.zck_write.every_source_byte_handed_on_exactly_once_in_order*/
+V_ENSURES(__CPROVER_return_value < 0 || g_next_off == G_OFF(src) + src_size) /*@C01.zck_write.every_source_byte_handed_on_exactly_once_in_order*/
 V_ENSURES(__CPROVER_return_value <= 0 || (zck->comp.started != 0 && WR_BOUNDS(zck))) /*@C16.zck_write.chunk_under_construction_within_effective_maximum*/
 ;
 #endif
